@@ -64,6 +64,17 @@ $(B)/bin/fz_%: $(V)/fuzz/fz_%.cc $(B)/obj/fz_caseio.o $(FUZZLIB) $(wildcard $(V)
 	@mkdir -p $(B)/bin
 	$(CXX) $(CXXFLAGS) -fsanitize=fuzzer -o $@ $< $(B)/obj/fz_caseio.o $(FUZZLIB) -lpthread
 
+# in-process targets that reuse a rapidcheck driver's executor (the driver source is included with VERIF_FUZZ defined)
+$(B)/bin/fz_msg: $(V)/fuzz/fz_msg.cc $(V)/props/C17.cpp $(B)/obj/fz_caseio.o $(FUZZLIB) $(V)/engine/pbt.hpp
+	@mkdir -p $(B)/bin
+	$(CXX) $(CXXFLAGS) -fsanitize=fuzzer -o $@ $< $(B)/obj/fz_caseio.o $(FUZZLIB) -lrapidcheck -lpthread
+$(B)/obj/fz_shim_core.o: $(V)/props/shim_core.c $(FUZZLIB)
+	@mkdir -p $(B)/obj
+	$(CC) $(CFLAGS) $(shell cat $(B)/fuzz/nng_defs.txt) -fsanitize=fuzzer-no-link -c $< -o $@
+$(B)/bin/fz_q: $(V)/fuzz/fz_q.cc $(V)/props/C18.cpp $(B)/obj/fz_caseio.o $(B)/obj/fz_shim_core.o $(FUZZLIB) $(V)/engine/pbt.hpp
+	@mkdir -p $(B)/bin
+	$(CXX) $(CXXFLAGS) -fsanitize=fuzzer -o $@ $< $(B)/obj/fz_caseio.o $(B)/obj/fz_shim_core.o $(FUZZLIB) -lrapidcheck -lpthread
+
 $(B)/obj/fz_shim_http.o: $(V)/props/shim_http.c $(FUZZLIB)
 	@mkdir -p $(B)/obj
 	$(CC) $(CFLAGS) $(shell cat $(B)/fuzz/nng_defs.txt) -fsanitize=fuzzer-no-link -c $< -o $@
